@@ -37,6 +37,7 @@ def main(argv):
     pyrandom.Random(cfg.get("import_perm", 0)).shuffle(mods)
     from gev import grammars
 
+    cfg["desc"] = dict(cfg["desc"], _pad_between=[0, 48, 1040, 0, 528, 4112][cfg.get("import_perm", 0) // 7 % 6])
     built = None
     if cfg.get("grammar_first"):
         built = grammars.materialise(cfg["desc"])
